@@ -167,6 +167,40 @@ mod verif_c01 {
     key_float_special!(key_float_inf, 1, |x: f64| x == f64::INFINITY, |x: f32| x == f32::INFINITY);
     key_float_special!(key_float_neg_inf, 2, |x: f64| x == f64::NEG_INFINITY, |x: f32| x == f32::NEG_INFINITY);
 
+    // finite double keys and rejected spellings (concrete literals: float parsing of a symbolic string is out of reach)
+    #[kani::proof]
+    #[kani::unwind(12)]
+    fn key_f64_finite_literals() {
+        script(Reply::Str(5), Reply::Natural);
+        assert!(<KeyBehavior as Behavior>::deserialize_f64(Src(0), UV).is_ok());
+        assert!(n() == 2 && at(1) == Ev::VF64(1.5f64.to_bits()));
+        script(Reply::Str(9), Reply::Natural);
+        assert!(<KeyBehavior as Behavior>::deserialize_f64(Src(0), UV).is_ok());
+        assert!(n() == 2 && at(1) == Ev::VF64((-0.25f64).to_bits()));
+        script(Reply::Str(5), Reply::Natural);
+        assert!(<KeyBehavior as Behavior>::deserialize_f32(Src(0), UV).is_ok());
+        assert!(n() == 2 && at(1) == Ev::VF32(1.5f32.to_bits()));
+        kani::cover!(true);
+    }
+
+    #[kani::proof]
+    #[kani::unwind(12)]
+    fn key_hooks_reject_other_strings() {
+        // "ab" is neither a boolean nor a number
+        script(Reply::Str(7), Reply::Natural);
+        assert!(<KeyBehavior as Behavior>::deserialize_bool(Src(0), UV).is_err());
+        assert!(n() == 1);
+        script(Reply::Str(7), Reply::Natural);
+        assert!(<KeyBehavior as Behavior>::deserialize_f64(Src(0), UV).is_err());
+        assert!(n() == 1);
+        // a number is not a boolean key, a boolean is not a double key
+        script(Reply::Str(5), Reply::Natural);
+        assert!(<KeyBehavior as Behavior>::deserialize_bool(Src(0), UV).is_err());
+        script(Reply::Str(3), Reply::Natural);
+        assert!(<KeyBehavior as Behavior>::deserialize_f64(Src(0), UV).is_err());
+        kani::cover!(true);
+    }
+
     #[kani::proof]
     #[kani::unwind(16)]
     fn key_bytes_from_base64_string() {
